@@ -120,8 +120,65 @@ func init() {
 	})
 }
 
+// c13NamesProbe: naming the changes of a patch file - all of them, some of them, several of them alike - changes nothing.
+// The later changes have elisions on lines whose number differs between the '-' and the '+' version of the change
+// (more '-' lines than '+' lines in front of a context line), which is where a mix-up of one change's line table with
+// another's shows.
+func c13NamesProbe(ctx *core.Ctx, res *core.Result, idx int) {
+	r := ctx.Rand("c13names", idx)
+	bodies := []string{
+		"@@\n@@\n-p()\n+q()\n",
+		"@@\n@@\n-a(...)\n-x()\n+b(...)\n c(...)\n",
+		"@@\nvar v expression\n@@\n-d(...)\n-y()\n-z()\n+e(v, ...)\n f(v, ...)\n",
+		"@@\n@@\n g(...)\n-h(...)\n-k()\n+m(...)\n n(...)\n",
+	}
+	src := "package p\n\nfunc f1() {\n\tp()\n}\n\nfunc f2() {\n\ta(1, 2)\n\tx()\n\tc(3, 4)\n}\n\nfunc f3() {\n\td(5, 6)\n\ty()\n\tz()\n\tf(7, 8, 9)\n}\n\nfunc f4() {\n\tg(10)\n\th(11, 12)\n\tk()\n\tn(13)\n}\n"
+	perm := r.Perm(len(bodies))[:2+r.Intn(3)]
+	build := func(names []string) string {
+		var sb strings.Builder
+		for i, bi := range perm {
+			b := bodies[bi]
+			if names[i] != "" {
+				b = "@ " + names[i] + " @" + strings.TrimPrefix(b, "@@")
+			}
+			sb.WriteString(b + "\n")
+		}
+		return sb.String()
+	}
+	n := len(perm)
+	schemes := map[string][]string{"unnamed": make([]string, n), "distinct": nil, "all-alike": nil, "two-alike": nil, "first-only": make([]string, n)}
+	for i := 0; i < n; i++ {
+		schemes["distinct"] = append(schemes["distinct"], fmt.Sprintf("step%d", i))
+		schemes["all-alike"] = append(schemes["all-alike"], "fix")
+		schemes["two-alike"] = append(schemes["two-alike"], map[bool]string{true: "fix", false: ""}[i == 0 || i == n-1])
+	}
+	schemes["first-only"][0] = "fix"
+	base := applyAPI(build(schemes["unnamed"]), []string{src})[0]
+	res.Evals++
+	if base.Pan != "" || base.Err != "" || base.Out == src {
+		res.Violate("C13/names-probe-failed", base.Pan+base.Err, map[string]string{"p.patch": build(schemes["unnamed"]), "in.go": src})
+		return
+	}
+	for _, k := range []string{"distinct", "all-alike", "two-alike", "first-only"} {
+		pt := build(schemes[k])
+		run := applyAPI(pt, []string{src})[0]
+		res.Evals++
+		res.Ob("names-probe-runs", 1)
+		res.Sig("names-probe", k, fmt.Sprint(perm))
+		if run.Pan != "" || run.Err != "" || run.Out != base.Out {
+			rep := replayFiles(pt, src, run.Out)
+			rep["unnamed.patch"], rep["unnamed-output.go"] = build(schemes["unnamed"]), base.Out
+			res.Violate("C13/layout-changes-result/change-names", fmt.Sprintf("naming scheme %q gives another result than the unnamed changes (%s%s)", k, run.Pan, run.Err), rep)
+			return
+		}
+	}
+}
+
 func runC13(ctx *core.Ctx, idx int) *core.Result {
 	res := &core.Result{}
+	if idx%9 == 4 {
+		c13NamesProbe(ctx, res, idx)
+	}
 	r := ctx.Rand("c13", idx)
 	g := gen.NewG(r)
 	g.NoRelayoutComment = true // see known finding 24: a comment behind replaced code would make '-'/'+' pairs differ from context lines
